@@ -136,6 +136,25 @@ def make_verlet(q, dt_fs, steps, apply=True):
     return V.from_dict(V(dt=dt_fs, max_steps=steps, apply_constraints=apply).to_dict())
 
 
+def remember_results(ctx, atoms, where):
+    """what a driver leaves in the context: results (forces included) remembered by `save_state()` — for the current
+    configuration ("here") or for another one ("elsewhere": e.g. the last accepted state, while the integrator is asked
+    to start from a different point). The integrator must use the forces of the configuration it starts from."""
+    if where == "none":
+        return
+    q0, p0 = atoms.get_positions(), atoms.get_momenta()
+    if where == "elsewhere":
+        atoms.positions = q0 + 0.05 * np.sin(np.arange(q0.size).reshape(q0.shape) + 1.0)
+    atoms.get_forces()
+    import warnings
+
+    with warnings.catch_warnings():
+        warnings.simplefilter("ignore")
+        ctx.save_state()
+    atoms.positions = q0
+    atoms.set_array("momenta", p0, float, (3,))
+
+
 class VerletModel(common.Suite):
     """real Verlet.integrate(context) on analytic force fields == the Lean Float model"""
 
@@ -149,6 +168,7 @@ class VerletModel(common.Suite):
             s["dt_fs"] = frac / s["wmax"] / FS
             s["steps"] = rng.choice([0, 1, 1, 2, 3, 5, 10, 20, 40])
             s["apply"] = rng.random() < 0.6
+            s["remembered"] = rng.choice(["none", "here", "elsewhere", "elsewhere"])
             yield s
 
     def real(self, case):
@@ -156,6 +176,7 @@ class VerletModel(common.Suite):
         atoms = H.make_atoms(case)
         attach_calc(atoms, case["ff"])
         ctx = q["Ctx"](atoms, np.random.default_rng(0))
+        remember_results(ctx, atoms, case.get("remembered", "none"))
         integ = make_verlet(q, case["dt_fs"], case["steps"], case["apply"])
         integ.integrate(ctx)
         return {"dt": integ.dt, "q": atoms.get_positions().tolist(), "p": atoms.get_momenta().tolist(),
@@ -205,7 +226,8 @@ class VerletModel(common.Suite):
     def classify(self, case, obs):
         if case["steps"] == 0:
             return None
-        return f"{case['ff']['kind']}:apply={int(case['apply'])}:steps={'1' if case['steps'] == 1 else ('2-5' if case['steps'] <= 5 else '>5')}"
+        return (f"{case['ff']['kind']}:apply={int(case['apply'])}:steps={'1' if case['steps'] == 1 else ('2-5' if case['steps'] <= 5 else '>5')}"
+                f":remembered={case.get('remembered', 'none')}")
 
 
 # ============================================================================ 2. reversal experiment (oracle)
@@ -238,6 +260,8 @@ class Reversal(common.Suite):
         attach_calc(atoms, case["ff"])
         ctx = q["Ctx"](atoms, np.random.default_rng(0))
         integ = make_verlet(q, case["dt_fs"], case["steps"], case["apply"])
+        if case["steps"] % 2:
+            remember_results(ctx, atoms, "here")      # the backward leg then starts away from the remembered state
         q0, p0 = atoms.get_positions(), atoms.get_momenta()
         integ.integrate(ctx)
         q1, p1 = atoms.get_positions(), atoms.get_momenta()
